@@ -215,6 +215,15 @@ def handle (d : DState) : List String → DState × String
     | some cr =>
       if d.s.portal = .running then ({ d with ready := d.ready ++ [.stopCall cr] }, "env")
       else (d, "DISABLED")
+  | ["stopinloop", cr] =>
+    -- `await portal.stop(cr)` executed by code that is already running in the loop (the only way to
+    -- stop a second time, e.g. with cancel_remaining after a polite stop)
+    match Driver.parseBool cr with
+    | none => (d, "bad-op")
+    | some cr =>
+      match fire d (.stop cr) with
+      | none => (d, "DISABLED")
+      | some (d', r) => (d', outStr r)
   | ["exitreq", x] =>
     match Driver.parseBool x with
     | none => (d, "bad-op")
